@@ -5,6 +5,8 @@
 From PyGql Require Import Spec.ExecSpec Exec.ExecCache Proofs.ExecTopProofs.
 From PyGql Require Import Proofs.DepthTermination Proofs.ExecTermination.
 From PyGql Require Import Proofs.ExecCollectFull Proofs.ExecSpecFull Proofs.ExecTerminates.
+From PyGql Require Import Proofs.ExecSpecDet Proofs.ExecCollectReach Proofs.ExecCoerceC07.
+From PyGql Require Exec.CoerceModel Spec.CoerceSpec.
 
 (* Response keys: the keys of every response object are the keys of the
    grouped fields the object type defines, in grouping order; the groups have
@@ -264,6 +266,118 @@ Theorem C04_exec_terminates :
 Proof. exact exec_terminates. Qed.
 Print Assumptions C04_exec_terminates.
 
+(* ---- the specification relations are functional *)
+
+(* CollectFields has at most one result, and so have ExecuteSelectionSet /
+   ExecuteField / CompleteValue for any functional CollectFields. *)
+Theorem C04_spec_is_functional :
+  (forall applies frags vs ss g g',
+      SCollect applies frags vs ss g -> SCollect applies frags vs ss g' -> g = g') /\
+  (forall sch coerce_args world tyres (G : str -> list selection -> groups -> Prop),
+      (forall tn ss g g', G tn ss g -> G tn ss g' -> g = g') ->
+      forall tn v p sels d es d' es',
+        SSel sch coerce_args world tyres G tn v p sels d es ->
+        SSel sch coerce_args world tyres G tn v p sels d' es' -> d = d' /\ es = es').
+Proof. split; [exact SCollect_det|exact SSel_det]. Qed.
+Print Assumptions C04_spec_is_functional.
+
+(* Hence the executor's result is THE result of the specification's algorithm
+   (acyclic fragments, no failed sub-selection collect): a specification
+   result exists with the executor's data and errors (locations inside an
+   error equal as sets), and every specification result is that one. *)
+Theorem C04_exec_is_the_spec_result :
+  forall sch frags vs coerce_args world tyres cfuel rank,
+    acyclic frags rank ->
+    forall fuel tname v p sels r,
+      exec_sel sch frags vs coerce_args world tyres cfuel fuel tname v p sels = Ok r ->
+      no_abort (snd r) ->
+      (exists es', SSel sch coerce_args world tyres (fun tn ss g => SCollect (applies sch tn) frags vs ss g)
+                        tname v p sels (fst r) es' /\ errs_sim (snd r) es') /\
+      (forall d es', SSel sch coerce_args world tyres (fun tn ss g => SCollect (applies sch tn) frags vs ss g)
+                          tname v p sels d es' ->
+                     d = fst r /\ errs_sim (snd r) es').
+Proof. exact exec_is_the_spec_result. Qed.
+Print Assumptions C04_exec_is_the_spec_result.
+
+(* ---- fragment cycles *)
+
+(* C04_collect_full with acyclicity required only among the fragments the
+   selection list can reach (rs: a set of fragment names containing every
+   spread of ss and closed under the spreads of its members' bodies); the rest
+   of the table may contain cycles. *)
+Theorem C04_collect_full_reachable :
+  forall applies frags vs rs rank mc fuel ss g,
+    covered frags rs ss -> rs_closed frags rs -> acyclic (restrict frags rs) rank ->
+    collect applies frags vs mc fuel ss = Ok g ->
+    exists g', SCollect applies frags vs ss g' /\ ExecProofs.keys g = ExecProofs.keys g' /\
+               Forall2 (fun a b => incl (snd a) (snd b) /\ incl (snd b) (snd a)) g g' /\
+               Forall2 (fun a b => Ext [] (snd b) (snd a)) g g'.
+Proof. exact collect_full_reachable. Qed.
+Print Assumptions C04_collect_full_reachable.
+
+(* A reachable cycle (fragment F on T { ...F }, spread where it applies): the
+   traversal runs out of every amount of fuel -- in Python, RecursionError; no
+   result exists, which is why the full-strength statements are about acyclic
+   (validated) documents. *)
+Theorem C04_reachable_cycle_no_result :
+  forall applies vs mc fuel g local,
+    ~ In (str_of_string "F"%string) local ->
+    collect_into applies cyc_frags vs mc fuel [cyc_spread] g local = OutOfFuel \/
+    applies (Some (TNamed (Name (str_of_string "T"%string) None) None)) = false.
+Proof. exact reachable_cycle_runs_out_of_fuel. Qed.
+Print Assumptions C04_reachable_cycle_no_result.
+
+(* ---- with the real argument coercion (C07's model, Exec/CoerceModel.v) as
+   the coerce_args parameter; isch: the input-side schema description, closed,
+   input types only, every argument type of every object field usable in it *)
+Theorem C04_exec_terminates_with_C07_coercion :
+  forall sch isch,
+    CoerceSpec.schema_closed isch -> CoerceSpec.schema_inputs isch -> args_usable sch isch ->
+    forall frags vs world tyres rank,
+      acyclic frags rank ->
+      forall ss tname v p,
+        exists F CF, forall fuel cfuel, F <= fuel -> CF <= cfuel ->
+          exec_sel sch frags vs (coerce_args_c07 isch vs) world tyres cfuel fuel tname v p ss <> OutOfFuel.
+Proof. exact exec_terminates_c07. Qed.
+Print Assumptions C04_exec_terminates_with_C07_coercion.
+
+Theorem C04_exec_eq_spec_full_with_C07_coercion :
+  forall sch isch frags vs world tyres cfuel rank,
+    acyclic frags rank ->
+    forall fuel tname v p sels r,
+      exec_sel sch frags vs (coerce_args_c07 isch vs) world tyres cfuel fuel tname v p sels = Ok r ->
+      no_abort (snd r) ->
+      exists es',
+        SSel sch (coerce_args_c07 isch vs) world tyres
+             (fun tn ss g => SCollect (applies sch tn) frags vs ss g) tname v p sels (fst r) es' /\
+        Forall2 (fun e e' => e_path e = e_path e' /\ e_kind e = e_kind e' /\
+                             incl (e_locs e) (e_locs e') /\ incl (e_locs e') (e_locs e)) (snd r) es'.
+Proof. exact exec_eq_spec_full_c07. Qed.
+Print Assumptions C04_exec_eq_spec_full_with_C07_coercion.
+
+Theorem C04_null_error_bijection_with_C07_coercion :
+  forall sch isch frags vs world tyres cfuel fuel tname v p sels d es,
+    schema_nn_ok sch ->
+    exec_sel sch frags vs (coerce_args_c07 isch vs) world tyres cfuel fuel tname v p sels = Ok (d, es) ->
+    NoDup (map e_path es) /\
+    Forall (fun e => exists q, e_path e = p ++ q /\ null_on_path d q) es.
+Proof. exact null_error_bijection_c07. Qed.
+Print Assumptions C04_null_error_bijection_with_C07_coercion.
+
+(* on a field the object type defines, the real coercion either yields the
+   resolver's kwargs or the field is null with one coercion error at its path
+   and location -- it never crashes or diverges *)
+Theorem C04_argument_failure_with_C07_coercion :
+  forall sch isch,
+    CoerceSpec.schema_closed isch -> CoerceSpec.schema_inputs isch -> args_usable sch isch ->
+    forall vs world tyres sub_exec tn name k fd tname parent node nodes p,
+      field_definition sch tn name = Ok (Some (k, fd)) ->
+      (exists args, coerce_args_c07 isch vs fd node = Ok args) \/
+      resolve_field sch (coerce_args_c07 isch vs) world tyres sub_exec tname parent k fd (node :: nodes) p =
+        Ok (PNone, [Err p [sel_loc node] ECoercion]).
+Proof. exact argument_failure_c07. Qed.
+Print Assumptions C04_argument_failure_with_C07_coercion.
+
 (* ------------------------------------------------------------ non-vacuity *)
 Local Open Scope string_scope.
 Definition ex_s (x : string) : str := str_of_string x.
@@ -354,3 +468,19 @@ Example C04_example_collect_failure :
   exec_sel ex_schema [] [(ex_s "s", PNone)] (fun _ _ => Ok []) (ex_world false) (fun _ => None) 50 10
            (ex_s "Query") PNone [] [bad] = Rejected REJ_COERCION 0.
 Proof. vm_compute. split; reflexivity. Qed.
+
+(* the premises of the C07 instantiation are satisfiable: the example schema
+   (its fields take no arguments) with an input side of scalars *)
+Example C04_example_c07_premises :
+  let isch : CoerceModel.schema := [(ex_s "Int", CoerceModel.TDScalar CoerceModel.KInt)] in
+  CoerceSpec.schema_closed isch /\ CoerceSpec.schema_inputs isch /\ args_usable ex_schema isch.
+Proof.
+  cbv zeta. split; [|split].
+  - intros n fs f H. cbn [alookup] in H. destruct (str_eqb n (ex_s "Int")); discriminate H.
+  - intros n fs f H. cbn [alookup] in H. destruct (str_eqb n (ex_s "Int")); discriminate H.
+  - intros tn fs ifs f a Hg Hi Ha. unfold get_type in Hg. simpl in Hg.
+    repeat match type of Hg with
+           | (if ?b then _ else _) = _ => destruct b; [inversion Hg; subst; clear Hg|]
+           end; try discriminate;
+      simpl in Hi; repeat (destruct Hi as [<-|Hi]; [destruct Ha|]); destruct Hi.
+Qed.
